@@ -327,3 +327,18 @@ func WithTimeout(parent context.Context, d time.Duration) (context.Context, cont
 func WithDeadline(parent context.Context, t time.Time) (context.Context, context.CancelFunc) {
 	return context.WithDeadlineCause(parent, t, ErrCause)
 }
+
+// Detach wraps ctx in a hand-written context type: Done, Err and Deadline are ctx's, Value is answered by
+// an unrelated context that is alive (the "detached values" pattern: request-scoped values on a
+// differently-scoped lifetime). Library calls are documented to report ctx.Err(); anything that goes
+// looking for the state of a standard-library context behind Value (context.Cause does) finds the live one.
+func Detach(ctx context.Context) context.Context { return detached{inner: ctx} }
+
+var liveValues, _ = context.WithCancel(context.Background())
+
+type detached struct{ inner context.Context }
+
+func (d detached) Deadline() (time.Time, bool) { return d.inner.Deadline() }
+func (d detached) Done() <-chan struct{}       { return d.inner.Done() }
+func (d detached) Err() error                  { return d.inner.Err() }
+func (d detached) Value(k any) any             { return liveValues.Value(k) }
